@@ -20,7 +20,7 @@ def rank (c : Cfg) (linked : Nat) (fk : Fork) : Nat :=
   | .wLoop => if condMet c linked fk then 17 else 24
   | .wAcq => if condMet c linked fk then 23 else 24
   | .wChk => 22 | .wPull => 21 | .wLink => 20 | .wPut => 19 | .wRel => 18
-  | .bAcq => 16 | .bInc => 15
+  | .bAcq => 16 | .bInc => 15 | .bIncW => 14
   | .retStop => 1 | .done => 0
 
 def fmeasure (c : Cfg) (linked : Nat) (fk : Fork) : Nat := 40 * (c.len + 2 - fk.inc) + rank c linked fk
@@ -280,6 +280,9 @@ theorem fork_advances (c : Cfg) (s : State) (hi : Inv c s) (h2 : Inv2 c s) (hbs 
     tee_en .bacq
   case bInc =>
     have hc := (fi.atBox (by simp [hpc, Pc.atBox])).1
+    tee_en .ncmp
+  case bIncW =>
+    have hc := (fi.atBox (by simp [hpc, Pc.atBox])).1
     tee_en .inc
   case bCmp =>
     have hc := (fi.postInc (by simp [hpc, Pc.postInc])).1
@@ -318,11 +321,11 @@ theorem unblocked_advances (c : Cfg) (s : State) (hi : Inv c s) (h2 : Inv2 c s) 
     simp only [holdsBox, Bool.and_eq_true, Bool.or_eq_true, beq_iff_eq] at hh
     have hpg := hh.2
     refine fork_advances c s hi h2 hbs g hg ?_ (Or.inr ⟨?_, ?_⟩) ?_ ?_
-    · rcases hpg with ((h | h) | h) | h <;> simp [h]
-    · rcases hpg with ((h | h) | h) | h <;> simp [h]
-    · rcases hpg with ((h | h) | h) | h <;> simp [h]
-    · rcases hpg with ((h | h) | h) | h <;> simp [h]
-    · rcases hpg with ((h | h) | h) | h <;> simp [h]
+    · rcases hpg with (((h | h) | h) | h) | h <;> simp [h]
+    · rcases hpg with (((h | h) | h) | h) | h <;> simp [h]
+    · rcases hpg with (((h | h) | h) | h) | h <;> simp [h]
+    · rcases hpg with (((h | h) | h) | h) | h <;> simp [h]
+    · rcases hpg with (((h | h) | h) | h) | h <;> simp [h]
   · refine fork_advances c s hi h2 hbs f hf hnd hsp hput ?_
     intro hp j hc
     apply Classical.byContradiction
